@@ -54,7 +54,11 @@ fn gen_case(rng: &mut SplitMix) -> (bool, Leaf, PopRaw) {
     // mostly small populations; one case in eight is large (implementations switch strategy with the ratio of
     // population to tournament size, or with word-sized bit sets: 24 .. 300 individuals, many tied scores)
     let big = rng.chance(1, 8);
-    let pop = if big { gen_pop(rng, *rng.clone().pick(&[24u64, 40, 65, 130, 300]), 2, false) } else { gen_pop(rng, 12, 2, false) };
+    // ... and one in four hundred is huge (thresholds at 2^12, 2^13, 2^14 individuals)
+    let huge = rng.chance(1, 400);
+    let pop = if huge { crate::selcommon::gen_pop_n(rng, *rng.clone().pick(&[4097usize, 8193, 16_385]), 2, false) }
+        else if big { gen_pop(rng, *rng.clone().pick(&[24u64, 40, 65, 130, 300]), 2, false) } else { gen_pop(rng, 12, 2, false) };
+    let big = big || huge;
     let n = pop.len();
     let sel = match rng.below(7) {
         0 => Leaf::Best,
